@@ -894,6 +894,15 @@ func illegalNonInt(t *rapid.T) *Opd {
 	return &Opd{F: "x", Raw: rapid.SampledFrom([]string{"(1.5)", "(0.5)", "(2.5)", "('x')", "(\"ab\")", "([1,2])", "(null)", "(3 / 2.0)"}).Draw(t, "badNonInt")}
 }
 
+// illegalOpd draws an out-of-range integer or (one time in three) a non-integer value.
+func illegalOpd(t *rapid.T, vals []int64, what *string) *Opd {
+	if rapid.IntRange(0, 2).Draw(t, "nonInt") == 0 {
+		*what += "/non-int"
+		return illegalNonInt(t)
+	}
+	return illegalInt(t, vals)
+}
+
 func drawIllegalCase(t *rapid.T, s *rt.Section) IllegalCase {
 	c := IllegalCase{}
 	c.Seed = [2]uint64{rapid.Uint64().Draw(t, "seed0"), rapid.Uint64().Draw(t, "seed1")}
@@ -902,7 +911,7 @@ func drawIllegalCase(t *rapid.T, s *rt.Section) IllegalCase {
 	lit := func(v int64) *Opd { return g.simple(v) }
 	nonPos := []int64{0, 0, -1, -2, -7, -100}
 	var bad *Term
-	switch rapid.IntRange(0, 15).Draw(t, "slot") {
+	switch rapid.IntRange(0, 17).Draw(t, "slot") {
 	case 0, 1:
 		c.What = "xdy.times"
 		bad = &Term{K: "xdy", Y: lit(rapid.Int64Range(1, 20).Draw(t, "sides"))}
@@ -954,31 +963,35 @@ func drawIllegalCase(t *rapid.T, s *rt.Section) IllegalCase {
 		bad.Chain = []*Term{ch}
 	case 8:
 		c.What = "wod.pool"
-		bad = &Term{K: "wod", X: illegalInt(t, []int64{0, -1, -5, 20001, 20002, 50000, 1 << 40}), Y: lit(rapid.SampledFrom([]int64{0, 5, 8, 10, 11}).Draw(t, "addLine"))}
+		bad = &Term{K: "wod", X: illegalOpd(t, []int64{0, -1, -5, 20001, 20002, 50000, 1 << 40}, &c.What), Y: lit(rapid.SampledFrom([]int64{0, 5, 8, 10, 11}).Draw(t, "addLine"))}
 	case 9:
 		c.What = "wod.addline"
-		bad = &Term{K: "wod", X: lit(rapid.Int64Range(1, 10).Draw(t, "pool")), Y: illegalInt(t, []int64{1, 1, -1, -2, -9})}
+		bad = &Term{K: "wod", X: lit(rapid.Int64Range(1, 10).Draw(t, "pool")), Y: illegalOpd(t, []int64{1, 1, -1, -2, -9}, &c.What)}
 		if rapid.Bool().Draw(t, "omitX") {
 			bad.X = nil
 		}
 	case 10:
 		c.What = "wod.sides"
 		bad = &Term{K: "wod", X: lit(rapid.Int64Range(1, 10).Draw(t, "pool")), Y: lit(rapid.SampledFrom([]int64{0, 8, 10, 12}).Draw(t, "addLine")),
-			Mods: []Mod{{L: "m", V: illegalInt(t, nonPos)}}}
+			Mods: []Mod{{L: "m", V: illegalOpd(t, nonPos, &c.What)}}}
 	case 11:
 		c.What = "wod.threshold"
 		bad = &Term{K: "wod", X: lit(rapid.Int64Range(1, 10).Draw(t, "pool")), Y: lit(rapid.SampledFrom([]int64{0, 8, 10, 12}).Draw(t, "addLine")),
-			Mods: []Mod{{L: rapid.SampledFrom([]string{"k", "q"}).Draw(t, "kq"), V: illegalInt(t, nonPos)}}}
+			Mods: []Mod{{L: rapid.SampledFrom([]string{"k", "q"}).Draw(t, "kq"), V: illegalOpd(t, nonPos, &c.What)}}}
 	case 12:
 		c.What = "dc.pool"
-		bad = &Term{K: "dc", X: illegalInt(t, []int64{0, -1, -5, 20001, 20002, 50000, 1 << 40}), Y: lit(rapid.Int64Range(5, 11).Draw(t, "addLine"))}
+		bad = &Term{K: "dc", X: illegalOpd(t, []int64{0, -1, -5, 20001, 20002, 50000, 1 << 40}, &c.What), Y: lit(rapid.Int64Range(5, 11).Draw(t, "addLine"))}
 	case 13, 14:
 		c.What = "dc.addline"
-		bad = &Term{K: "dc", X: lit(rapid.Int64Range(1, 10).Draw(t, "pool")), Y: illegalInt(t, []int64{1, 1, 0, 0, -1, -2, -9})}
-	default:
+		bad = &Term{K: "dc", X: lit(rapid.Int64Range(1, 10).Draw(t, "pool")), Y: illegalOpd(t, []int64{1, 1, 0, 0, -1, -2, -9}, &c.What)}
+	case 15:
 		c.What = "dc.sides"
 		bad = &Term{K: "dc", X: lit(rapid.Int64Range(1, 10).Draw(t, "pool")), Y: lit(rapid.Int64Range(5, 11).Draw(t, "addLine")),
-			Mods: []Mod{{L: "m", V: illegalInt(t, nonPos)}}}
+			Mods: []Mod{{L: "m", V: illegalOpd(t, nonPos, &c.What)}}}
+	default:
+		c.What = "coc.count"
+		bad = &Term{K: "coc", Bonus: rapid.Bool().Draw(t, "bonus")}
+		bad.X = illegalOpd(t, []int64{-1, -1, -2, -7, -100}, &c.What)
 	}
 	bad.Up = rapid.IntRange(0, 5).Draw(t, "up") == 0
 	for _, o := range []*Opd{bad.X, bad.Y, bad.KN} {
@@ -1026,6 +1039,9 @@ func drawIllegalCase(t *rapid.T, s *rt.Section) IllegalCase {
 func checkIllegal(c IllegalCase, s *rt.Section) *rt.Failure {
 	src, _ := printCase(&c.VMCase)
 	vm := newVM(&c.VMCase)
+	// no operation budget here: the rejection must come from the parameter check, not from a budget that an
+	// endlessly exploding roll happens to exhaust (the legal neighbours are tiny; the work meter bounds a runaway)
+	vm.Config.OpCountLimit = 0
 	var err error
 	sig, obs := guarded(func() { err = vm.Run(src) })
 	if sig != "" {
